@@ -46,8 +46,9 @@ def op_operators(task):
                 continue
             # every respelling of the characters that have one gives the same kinds
             variants = [s]
-            for table in (TRI, DI):
-                v = "".join(table.get(ch, ch) for ch in s)
+            choices = [[ch] + [t[ch] for t in (TRI, DI) if ch in t] for ch in s]
+            for combo2 in itertools.product(*choices):
+                v = "".join(combo2)
                 if v != s:
                     variants.append(v)
             from vp.replay.lexpos import logical
@@ -253,6 +254,18 @@ def op_literals(task):
         if r["exc"] or t0 is None or t0[0] != kind or t0[3] != lit or r["errors"]:
             viol.append({"what": f"valid literal {lit!r} lexes to {t0} with diagnostics {[e['name'] for e in r['errors']]} "
                                  f"{r['exc'] or ''}", "text": lit + ";"})
+    for lit, kind in char_and_strings():
+        q = "'" if kind == "CHAR_CONST" else '"'
+        start = lit.index(q)
+        for cut in range(start + 1, len(lit)):
+            pre = lit[:cut]
+            cases += 1
+            r = lex(pre)
+            names = [e["name"] for e in r["errors"]]
+            want = "UNEXPECTED_EOF_CHR" if kind == "CHAR_CONST" else "UNEXPECTED_EOF_STR"
+            if r["exc"] or want not in names:
+                viol.append({"what": f"literal cut off at the end of the input {pre!r}: expected {want}, got {names} "
+                                     f"{r['exc'] or ''}", "text": pre})
     for lit, name in MALFORMED:
         cases += 1
         r = lex(lit)
